@@ -95,6 +95,13 @@ def cases(tier):
         n = 60
         for i in range(0, len(ex), n):
             out.append(dict(kind="expr", d=d, exprs=ex[i:i + n], model=mi))
+    # B-spline signals: der / der(der) of a spline parameter with known coefficients vs the analytic derivative (machinery of C17)
+    from ..common import have_networkx
+    if have_networkx():
+        for dd in (1, 2, 3, 4):
+            for N in (2, 3):
+                for g in ("uniform", "geom"):
+                    out.append(dict(kind="signal", d=dd, N=N, grid=g, method="Spline", width=1, M=1, combo="param", with_der=True))
     for order in (1, 2, 3, 4):
         for meth in ("SS", "MS", "DC"):
             for N in (2, 3):
@@ -252,11 +259,16 @@ def run_chain(case):
 
 
 def run_case(case):
+    if case["kind"] == "signal":
+        from . import c17
+        out = c17.run_signal(case)
+        out["violations"] = [v for v in out["violations"] if ":der" in v["sig"] or "der" in v["sig"]]
+        return out
     return run_expr(case) if case["kind"] == "expr" else run_chain(case)
 
 
 def describe(tier):
     return dict(
-        rule="(a) every expression AST up to depth %s over {x_0, x_1, y, t, global parameter, global variable} (unary sin/square/neg/affine, binary mul/add/sub, vector-valued) x 5 ODE models (time-dependent, two controls, no control, per-interval parameter and variable; global parameter AND variable in the rhs) x 3 generic points: ocp.der(e) = forward-mode dual-number derivative of e along (rhs, 1) computed by the reference's own arithmetic; (b) controls of order 1..4 x method x N,M: der walks the chain (states, then the control), der^(k+1) raises, and at a dynamically feasible point every chain member sampled with refine=4 equals the Taylor polynomial built from the higher members" % ("3" if tier == "thorough" else "2"),
+        rule="(c) der and der(der) of B-spline parameters of order 1..4 sampled under SplineMethod vs the analytic spline derivative in physical time; (a) every expression AST up to depth %s over {x_0, x_1, y, t, global parameter, global variable} (unary sin/square/neg/affine, binary mul/add/sub, vector-valued) x 5 ODE models (time-dependent, two controls, no control, per-interval parameter and variable; global parameter AND variable in the rhs) x 3 generic points: ocp.der(e) = forward-mode dual-number derivative of e along (rhs, 1) computed by the reference's own arithmetic; (b) controls of order 1..4 x method x N,M: der walks the chain (states, then the control), der^(k+1) raises, and at a dynamically feasible point every chain member sampled with refine=4 equals the Taylor polynomial built from the higher members" % ("3" if tier == "thorough" else "2"),
         bound="AST depth %d; control order <=4" % (3 if tier == "thorough" else 2),
-        assumptions=["CasADi Function evaluation is trusted", "B-spline signal derivatives are decided under C17"])
+        assumptions=["CasADi Function evaluation is trusted", "B-spline signal derivatives use the scipy oracle of C17 (SplineMethod; under sampling methods der of a signal is a recorded finding of C17)"])
